@@ -113,8 +113,9 @@ CHECKS = {
         props=['C10'], opts='props=0 q=16',
         quick=[mc(2, [2, 5, 6], DEL, DEL + GC, Modes='ModesTwo', BUSets='BUOn'),
                mc(1, [3, 4, 7], [], ['add_face_v', 'add_cell_closed'] + DEL, Modes='ModesDefault', BUSets='BUOn')],
-        thorough=[mc(3, [2, 5, 6], DEL, DEL + GC + ['add_face_v', 'add_edge', 'add_cell_closed'], Modes='ModesTwo', BUSets='BUOn'),
-                  mc(2, [3, 4, 7, 9, 10, 11], DEL, ['add_face_v', 'add_cell_closed'] + DEL, Modes='ModesDefault', BUSets='BUOn')],
+        thorough=[mc(3, [5, 6], DEL, DEL + GC + ['add_face_v', 'add_edge', 'add_cell_closed'], Modes='ModesTwo', BUSets='BUOn'),
+                  mc(2, [2, 12], DEL, DEL + GC + ['add_cell_closed'], Modes='ModesTwo', BUSets='BUOn'),
+                  mc(1, [3, 4, 7, 9, 10, 11, 14], [], ['add_face_v', 'add_cell_closed'] + DEL, Modes='ModesTwo', BUSets='BUOn')],
         sim=dict(ops=DEL + GC + ADDS + SWAP + MODE, BUSets='BUOn', num=(12, 100), depth=(20, 40)),
     ),
     'C11': dict(
